@@ -118,6 +118,14 @@ def worker_main(argv):
     t0 = time.time()
     budget = float(os.environ.get("BVMON_WORKER_BUDGET_S", "0") or 0)
     try:
+        if shard == 0:
+            # pinned witnesses (one per known finding and per repaired defect) run on every tier
+            for case in getattr(mod, "PINNED", []):
+                ctx.cur_case = case
+                try:
+                    mod.run_case(ctx, case)
+                except harness.Skip as ex:
+                    ctx.count("discarded:pinned:" + str(ex))
         for case in mod.cases(ctx):
             ctx.cur_case = case
             try:
@@ -191,7 +199,11 @@ def driver_main(prop, tier, seed, replay=None, nshards=None):
         merged["nt"].update(r["nt"])
         merged["samples"].extend(r["samples"][:1] if len(merged["samples"]) >= 3 else r["samples"][:2])
         merged["counters"].update(r["counters"])
-        merged["reach"].update(r.get("reach", {}))
+        for rk, rv in r.get("reach", {}).items():
+            if rk.endswith("#lines"):
+                merged["reach"][rk] = max(merged["reach"].get(rk, 0), rv)
+            else:
+                merged["reach"][rk] += rv
         for cls, ent in r["viol"].items():
             m = merged["viol"].setdefault(cls, {"count": 0, "items": []})
             m["count"] += ent["count"]
@@ -214,10 +226,17 @@ def driver_main(prop, tier, seed, replay=None, nshards=None):
     n_viol = 0
     lines = []
     known_hits = {}
+    printed = set()
     for cls, ent in sorted(merged["viol"].items()):
-        if cls in known_by_cls:
+        parts = cls.split("+")
+        if all(c in known_by_cls for c in parts):
+            # a case in which several listed mechanisms are present at once is explained by them
             known_hits[cls] = ent["count"]
-            lines.append(f"KNOWN-FINDING: property={prop} {known_by_cls[cls]['what']} [{cls}; {ent['count']} hits]")
+            for c in parts:
+                if c not in printed:
+                    printed.add(c)
+                    n = sum(e["count"] for k, e in merged["viol"].items() if c in k.split("+"))
+                    lines.append(f"KNOWN-FINDING: property={prop} {known_by_cls[c]['what']} [{c}; {n} hits]")
             continue
         n_viol += 1
         os.makedirs(os.path.join(VERIF, "replay"), exist_ok=True)
